@@ -9,7 +9,7 @@ CHECKS = {
    note="Trusted: refbf (independent canonical interpreter), the harness' scripted Read/Write objects. Bound: program spaces, input alphabet {0,1,2,128,255}+EOF, step cap.", ref="§3 C01"),
  "C02": dict(cat="model_checking", tech="same bounded exhaustive differential exploration on the bytecode interpreter, in two build profiles (tail-called release dispatch and trampolined debug-assertions dispatch)",
    text="As C01 for BcInterpreter; both dispatchers are executed (release and release+debug-assertions builds of the checker).", note="Trusted: refbf; refbc is used only to localise failures.", ref="§3 C02"),
- "C03": dict(cat="model_checking", tech="same bounded exhaustive differential exploration on the x86-64 baseline JIT, plus the wide-assignment family W that forces stack temporaries and 64-bit immediates",
+ "C03": dict(cat="model_checking", tech="same bounded exhaustive differential exploration on the x86-64 baseline JIT, plus the families W (wide assignments) and P (prefix chains with wide constants) that force stack temporaries and 64-bit immediates",
    text="As C01 for BaseJitCompiler, with instruction-form coverage reported.", note="Trusted: refbf. Runs real machine code in-process; crashes are attributed by the driver.", ref="§3 C03"),
  "C04": dict(cat="model_checking", tech="bounded exhaustive differential exploration of the in-place interpreter (one program length further than the other backends)",
    text="As C01 for InplaceInterpreter against an independent implementation (jump table instead of nesting-counter scan, separate tape).", note="Trusted: refbf.", ref="§3 C04"),
@@ -17,14 +17,14 @@ CHECKS = {
    text="Divergence of the reference is proved (Brent cycle detection on full machine states), then every backend/level/width is observed: never finishes under any budget of the ladder, output before/in the cycle is exactly canonical, a failing sink at chosen positions returns with exactly the canonical prefix, silent cycles are still running after a window.",
    note="'Never returns' is decided inside a finite observation window; moving divergence is skipped (Unknown).", ref="§3 C05"),
  "C07": dict(cat="model_checking", tech="exhaustive enumeration of programs x budget ladder (0..2^62) x backend x level x width with a metric-agnostic prefix/complete oracle",
-   text="finished => complete canonical trace; interrupted => prefix of the canonical stream; 2^62 => halting programs finish; provably cyclic programs never finish.", note="Trusted: refbf incl. cycle proof.", ref="§3 C07"),
+   text="finished => complete canonical trace; interrupted => prefix of the canonical stream; 2^62 => halting programs finish; provably cyclic programs never finish; the same after a plain execute on the same executor (history step).", note="Trusted: refbf incl. cycle proof.", ref="§3 C07"),
  "C08": dict(cat="fault_enumeration", tech="complete enumeration of the first failing I/O action (every position below a bound, every failure kind, input absent) for every program of the space on every backend",
    text="One run per (program, script, fault position, fault kind); log must be the canonical prefix ending with the failing attempt, no later event, normal return.", note="LLVM backend not buildable here and excluded.", ref="§3 C08"),
  "C06": dict(cat="model_checking", tech="bounded exhaustive enumeration of programs (incl. a family of far-walking programs) x backend x level x width x allocation placement, executed on the real code under an instrumented global allocator that puts every block flush against a PROT_NONE guard page",
    text="Any access outside the tape allocation on the guarded side faults (the tape has an array layout and is checked byte-exactly, both placements are run); contents must survive every reallocation because the I/O log must equal the canonical trace.",
    note="Trusted: the instrumented allocator in /verif/mc/shim/src/galloc.rs; the JIT's mmap'd code pages are not instrumented.", ref="§3 C06"),
  "C09": dict(cat="model_checking", tech="explicit-state breadth-first search over the real runtime::Memory<C> with state deduplication on the observable state, map model as oracle, guard-page allocator in both placements",
-   text="All call histories up to a depth over a 52-call alphabet covering the three growth placements, far moves and the pointer round trip; after every history the model, monotonicity, contiguity and no-allocation-on-read invariants are checked.",
+   text="All call histories up to a depth over a 52-call alphabet covering the three growth placements, far moves and the pointer round trip; after every history the model, monotonicity, contiguity and no-allocation-on-read invariants are checked, and the pointer-based bounds query check_ptr must agree with check.",
    note="Trusted: map model; interval measured by probing check().", ref="§3 C09"),
  "C10": dict(cat="model_checking", tech="bounded exhaustive enumeration of programs run through execute_unsafe on an exact-fit pre-grown tape between two guard pages",
    text="The unchecked entry point of the bytecode interpreter and the JIT is run on every halting program of the spaces whose checked twin agreed; faults and trace differences are violations.", note="Margin computed from the canonical excursion at the width under test.", ref="§3 C10"),
@@ -37,7 +37,7 @@ CHECKS = {
  "C14": dict(cat="model_checking", tech="exhaustive enumeration of operand pairs at 8 bit (and 16 bit / 2^32 unary values in the thorough tier), boundary lattice at 32/64 bit, against definitions computed by independent algorithms",
    text="All operands where the space is finite enough; structured lattice otherwise (stated as not exhaustive).", note="Oracle: Newton-Hensel inverse, running products.", ref="§3 C14"),
  "C15": dict(cat="model_checking", tech="breadth-first closure of the public Expr API deduplicated on the expression's own Eq/Hash, every result evaluated under a complete grid of assignments",
-   text="Every expression reachable in three rounds of add/mul/neg/half/normalize/substitution from the atom pool (pool cap reported) is compared with concrete modular arithmetic under all assignments of the grid; all decompositions must recompose.", note="split_along is not callable from outside the crate.", ref="§3 C15"),
+   text="Every expression reachable in three rounds of add/mul/neg/half/normalize/substitution from the atom pool (pool cap reported) is compared with concrete modular arithmetic under all assignments of the grid; all decompositions must recompose.", note="split_along is checked directly (its private container types are built through inference): every partition of the variables into constant / linear / neither x a set of steps.", ref="§3 C15"),
  "C16": dict(cat="model_checking", tech="exhaustive enumeration of argv vectors from a flag alphabet run on the real binary, compared with a CLI model evaluated through the library API; strace for the executor actually used",
    text="Every combination of backend, width, level, limit, static, print options, flag order conflicts and code placements of the bounded family; stdout, exit status, stderr presence and stdin offset are compared.", note="Model evaluates through the library (tied to canonical semantics by C01-C10).", ref="§3 C16"),
  "C17": dict(cat="fault_enumeration", tech="complete enumeration of which allocation request (1st, 2nd, ...) fails, per grower program x backend x entry point, each run in its own process under the failing + guard-page allocator",
